@@ -30,4 +30,17 @@ def build_registry() -> ContractRegistry:
 
 
 def contract(reg, key, props, sig, **kw):
-    return reg.add(Contract(key=key, props=props, sig=sig, **kw))
+    if 'modifies' not in kw:
+        first = next(iter(sig), None)
+        sorts = {k: v.split('{')[0] for k, v in sig.items()}
+        if sorts.get('self') == 'Ctx':
+            kw['modifies'] = ['self.states.state_stack']
+        elif sorts.get('ctx') == 'Ctx':
+            kw['modifies'] = ['ctx.states.state_stack']
+    c = Contract(key=key, props=props, sig=sig, **kw)
+    # lint: a clause that speaks about old_<p> describes a state change of p, which must be declared
+    text = ' '.join([x[1] if isinstance(x, tuple) else x for x in c.ensures] + [y for v in c.raises.values() for y in v])
+    for name in c.sig:
+        if f'old_{name}' in text and not any(m.strip() == name or m.strip().startswith(name + '.') for m in c.modifies):
+            raise ValueError(f'contract {key}: clauses mention old_{name} but `modifies` declares no path under {name}')
+    return reg.add(c)
